@@ -59,7 +59,7 @@ def real_type(refl: Any, node: Any) -> str:
 
 FAULTS = [
 	'zz', '(s + a)', '(a + s)', '(p ^ q)', '(e % p)', '(p % e)', '(xs + xs)', '(t * a)', '(None + a)', '(o + a)', '(a + o)',
-	'xs.foo()', 's.nope()', 'a.bar(b)', 't[2]', 't[7]', 'foo(a)', '[z0 for z0 in a]', '[z0 for z0 in s]', '[z0 for z0 in t]', '[z0 for z0, z1 in xs]', '[z2 for z0, z1, z2 in d.items()]',
+	'xs.foo()', 's.nope()', 'a.bar(b)', 't[2]', 't[7]', 'foo(a)', '[z0 for z0 in a]', '[z0 for z0 in s]', '[z0 for z0 in t]',
 	'(d | d)', '(s * p)', '(xs * e)', '(p * xs)', '(ys % a)', '(s - s)', '(a << e)', '(e >> a)', '(s & s)', '(d + d)',
 ]
 # forms that are accepted but worth pinning (no argument checking, object fallback, receiver fall-through, Union results)
@@ -230,7 +230,7 @@ def py_eval(src: str, env: dict[str, Any]) -> str:
 	except (ZeroDivisionError, IndexError, KeyError, TypeError, ValueError) as e:
 		return type(e).__name__
 	_chk(v)
-	return 'ok ' + X.describe(v)
+	return 'ok ' + X.describe(v) + '\t' + X.val_show(v)
 
 
 def stream_pytype(ctx: Ctx) -> Stream:
@@ -255,7 +255,7 @@ def stream_pytype(ctx: Ctx) -> Stream:
 			skipped[f'unsupported:{e}'] += 1
 			continue
 		cases.append(({'expr': src, 'real': real}, [f'pytype\t{envx}\t{sx}'], [real]))
-	st = common.correspond('pytype', cases, 'infer', classify=lambda d: d['real'][3:].split('<')[0] if d['real'].startswith('ok ') else d['real'])
+	st = common.correspond('pytype', cases, 'infer', classify=lambda d: d['real'][3:].split('\t')[0].split('<')[0] if d['real'].startswith('ok ') else d['real'])
 	st.note = f'CPython eval of generated core expressions under random environments vs model typeOf∘eval; skipped (outside the exact domain): {dict(skipped)}'
 	return st
 
